@@ -93,6 +93,12 @@ CLAIMED["C01"] = dict(
     note="Decoder = the real reader (writer and reader wrong in the same way are not separated); Molden/Molekel reload with the normalisation gate opened and concrete geometry/contractions; FCHK density matrices, >4 shells, l>2 (quick) outside; three recorded Molekel findings.",
     ref="4/C01")
 
+CLAIMED["C16"] = dict(
+    text="Inductive global-state invariant: every module-level data object reachable from iodata.* (periodic and bond tables, all convention dictionaries, format/input registries, STRTOBOOL, unit constants) plus the numpy error state and the warning filters equals its snapshot before and after each API harness of a pool covering load_one/load_many/dump_one/dump_many/write_input of 20+ format paths including failing calls, on every symbolically explored path; since the invariant pins the state, any sequential history is a sequence of such steps. In addition A;B;A histories are executed on one path and the files written by the two runs of A are proved identical token for token.",
+    note="Thread interleavings are outside (no engine here models CPython scheduling; stated in DESIGN.md); state outside the enumerated module globals is only covered through the A;B;A comparison.",
+    technique="symbolic exploration of the real API calls with a global-state monitor (inductive invariant) and term-level comparison of outputs across A;B;A histories",
+    ref="4/C16")
+
 NOT_YET = "check not built yet in this round (planned, see DESIGN.md section 4)"
 NA = {}
 
